@@ -30,6 +30,7 @@
 #undef private
 
 #include "opentelemetry/baggage/baggage.h"
+#include "opentelemetry/trace/context.h"
 #include "opentelemetry/trace/default_span.h"
 #include "opentelemetry/trace/scope.h"
 #include "opentelemetry/trace/span_context.h"
@@ -301,6 +302,28 @@ static context::ThreadLocalContextStorage::Stack &my_stack()
   return tls->GetStack();
 }
 
+// a user-provided storage (RuntimeContext::SetRuntimeContextStorage): the thread-local one with every entry point counted
+struct CountingStorage : public context::ThreadLocalContextStorage
+{
+  std::atomic<size_t> calls{0};
+  Context GetCurrent() noexcept override
+  {
+    calls.fetch_add(1, std::memory_order_relaxed);
+    return context::ThreadLocalContextStorage::GetCurrent();
+  }
+  nostd::unique_ptr<context::Token> Attach(const Context &c) noexcept override
+  {
+    calls.fetch_add(1, std::memory_order_relaxed);
+    return context::ThreadLocalContextStorage::Attach(c);
+  }
+  bool Detach(context::Token &t) noexcept override
+  {
+    calls.fetch_add(1, std::memory_order_relaxed);
+    return context::ThreadLocalContextStorage::Detach(t);
+  }
+};
+static bool g_storage_replaced = false;
+
 struct Program
 {
   std::vector<Key> pool;
@@ -500,6 +523,50 @@ struct Program
       toks[m].reset();  // ~Token detaches
       tok_alive[m] = false;
       obs          = "ok";
+      return true;
+    }
+    if (name == "sspan" && op.size() == 4)
+    {
+      // trace::SetSpan(context, span) = context.SetValue(kSpanKey, span)
+      if (!nat_tok(op[2], p) || p >= ctxs.size() || !nat_tok(op[3], m) || m >= kPool) return false;
+      Context parent = ctxs[p];
+      obs            = add_ctx(trace_api::SetSpan(parent, g_pools->sp[m]));
+      return true;
+    }
+    if (name == "gspan" && op.size() == 3)
+    {
+      // trace::GetSpan(context): the span under kSpanKey, else a fresh invalid DefaultSpan (never null)
+      if (!nat_tok(op[2], p) || p >= ctxs.size()) return false;
+      auto sp = trace_api::GetSpan(ctxs[p]);
+      obs     = pool_index("sp:", sp, g_pools->sp);
+      if (obs == "sp:?") obs = (sp.get() == nullptr) ? "null" : sp->GetContext().IsValid() ? "sp:unknown" : "invalid";
+      return true;
+    }
+    if (name == "isroot" && op.size() == 3)
+    {
+      if (!nat_tok(op[2], p) || p >= ctxs.size()) return false;
+      obs = trace_api::IsRootSpan(ctxs[p]) ? "root=1" : "root=0";
+      return true;
+    }
+    if (name == "storage" && op.size() == 3)
+    {
+      // another storage behind RuntimeContext (documented use: before anything is attached - the generator puts it first;
+      // the thread-local stacks are per thread, not per storage object, so nothing may change even later)
+      if (!nat_tok(op[2], m) || m >= 3) return false;
+      using Storage = context::RuntimeContextStorage;
+      if (m == 0)
+        context::RuntimeContext::SetRuntimeContextStorage(nostd::shared_ptr<Storage>(new context::ThreadLocalContextStorage()));
+      else if (m == 1)
+        context::RuntimeContext::SetRuntimeContextStorage(nostd::shared_ptr<Storage>(new CountingStorage()));
+      else
+        context::RuntimeContext::SetRuntimeContextStorage(context::RuntimeContext::GetRuntimeContextStorage());
+      g_storage_replaced = true;
+      size_t before      = 0;
+      auto cur_storage   = context::RuntimeContext::GetConstRuntimeContextStorage();
+      auto *counting     = m == 1 ? static_cast<CountingStorage *>(const_cast<Storage *>(cur_storage.get())) : nullptr;
+      if (counting) before = counting->calls.load();
+      obs = "cur=" + handle_of(context::RuntimeContext::GetCurrent());
+      if (counting && counting->calls.load() == before) obs += "!storage-bypassed";
       return true;
     }
     if (name == "cur" && op.size() == 2)
@@ -743,6 +810,13 @@ static std::string handle_ctx(const std::vector<std::string> &toks)
   // whatever is still open is released here, on a thread that never attached anything
   prog.scopes.clear();
   prog.toks.clear();
+  if (g_storage_replaced)
+  {
+    // back to a plain thread-local storage for the next case
+    context::RuntimeContext::SetRuntimeContextStorage(
+        nostd::shared_ptr<context::RuntimeContextStorage>(new context::ThreadLocalContextStorage()));
+    g_storage_replaced = false;
+  }
   if (!ok) return "bad-op";
   return vh::join(outs, " ; ");
 }
